@@ -694,13 +694,20 @@ impl QuicMultiplexer {
             .map(|(k, v)| format!("{}@{}", utils::hex_dump(k), crate::verif::hooks::instant_us(*v)))
             .collect();
         all.sort();
+        let handshaking = self
+            .connections
+            .values()
+            .filter(|x| matches!(x, Connection::Handshake(_)))
+            .count();
         crate::verif::hooks::note_quic_timer_op(format!(
-            "{} => closest={} deadlines=[{}]",
+            "{} => closest={} deadlines=[{}] conns={},{}",
             op,
             self.closest_deadline
                 .map(|x| crate::verif::hooks::instant_us(x).to_string())
                 .unwrap_or_else(|| "-".to_string()),
-            all.join(",")
+            all.join(","),
+            handshaking,
+            self.connections.len() - handshaking
         ));
     }
 
@@ -804,11 +811,11 @@ impl QuicMultiplexer {
 
         for conn_id in closed {
             self.deadlines.remove(&conn_id);
-            #[cfg(feature = "verif")]
-            self.verif_timer_op(format!("remove {}", utils::hex_dump(&conn_id)));
             if let Some(Connection::Established(c)) = self.connections.remove(&conn_id) {
                 let _ = c.socket_tx.try_send(MultiplexerMessage::Close);
             }
+            #[cfg(feature = "verif")]
+            self.verif_timer_op(format!("remove {}", utils::hex_dump(&conn_id)));
         }
     }
 }
